@@ -2,6 +2,20 @@ from vlib.core import Query
 
 SHIMS = ["uatomic_seq.h", "upool_depth0.h"]
 
+CLAIM = {
+    "text": "Bounded model checking of the real ubits.h and ubuf_block_stream.h (over the real ubuf_block_mem manager): for ALL field "
+            "widths/values and every buffer size 0..4*fields+1 the writer output equals an independent MSB-first reference packer, byte "
+            "count = ceil(bits/8), the reader inverts it, too-small buffers / reads past the end are reported, and every memory access stays "
+            "inside the exact-size buffer object (CBMC pointer checks). The block bit-stream reader is decided by induction on the number of "
+            "fields (base: init_bits establishes the reader invariant for every start bit; step: from any invariant state one field of symbolic "
+            "width returns the reference bits and re-establishes the invariant) for every 3-way segmentation of the bytes. SAT verdict over all "
+            "values within the bounds; not a proof beyond them.",
+    "note": "Trusted: CBMC 6.11 C semantics, harness reference packer/extractor (20 lines), uatomic_seq.h/upool_depth0.h shims in the CBMC "
+            "build (native replays use the real headers). Bounds: 2 (quick) / 3 (thorough) writer fields, 3/4-octet segmented blocks, reader "
+            "widths <= 24 as the code's own assertion requires. Allocation failure out of scope.",
+    "technique": "CBMC bounded model checking of real C (goto-cc), case split on buffer size/segmentation, inductive step for the reader",
+}
+
 
 def build(tier):
     quick = tier == "quick"
